@@ -494,6 +494,7 @@ class Analyzer:
         self.inferred_kinds = {}
         self.module_const_fn = {}
         self.lambda_nodes = {}  # id(Lambda node) -> node                             } side tables of the callable descriptors
+        self.hinsts = {}  # ((file, CONST), index) -> record value: an instance of a helper class with __call__ held by a module-level constant
         self.mcalls = {}  # id(methodcaller(name, *args) call node) -> (method names, bound, keywords)
         self.partials = {}  # id(partial(...) call node) -> (callables, bound, keywords) } carried in AV.fn
         self.recmethods = {}  # id(Attribute node) -> (record value, method name)       }
@@ -653,7 +654,7 @@ class FuncAnalysis:
                 for (p, part) in getattr(self.ret_av, slot):
                     self.s.ret.add((slot, p, part))
             self.s.ret_kind = self.ret_av.kind
-            self.s.ret_fn = frozenset(d for d in self.ret_av.fn if d[0] in ("func", "lambda", "partial", "hclass", "accessor", "mcall"))
+            self.s.ret_fn = frozenset(d for d in self.ret_av.fn if d[0] in ("func", "lambda", "partial", "hclass", "accessor", "mcall", "hinst"))
         if self.ret_pos_avs:
             self.s.ret_pos = [({(slot, p, part) for slot in ("tags", "g", "r", "elems") for (p, part) in getattr(av_, slot)}, av_.kind) for av_ in self.ret_pos_avs]
         return self.s
@@ -961,6 +962,14 @@ class FuncAnalysis:
                         self.fn_vars[te.id] = fns
         if isinstance(st.target, ast.Name) and isinstance(st.iter, (ast.Tuple, ast.List)) and st.iter.elts and all(isinstance(e, ast.Constant) and isinstance(e.value, str) for e in st.iter.elts):
             self.const_vars[st.target.id] = [e.value for e in st.iter.elts]
+        # `for f, c in zip(FS, cs):` / `for i, x in enumerate(xs):` - each name gets the elements of its own iterable
+        itc = st.iter
+        if isinstance(itc, ast.Call) and isinstance(itc.func, ast.Name) and itc.func.id in ("zip", "enumerate") and itc.func.id not in self.env and isinstance(st.target, (ast.Tuple, ast.List)) \
+                and not any(isinstance(a, ast.Starred) for a in itc.args) and not any(isinstance(e, ast.Starred) for e in st.target.elts):
+            parts = [elem_of(self.ev_quiet(a)) for a in itc.args] if itc.func.id == "zip" else ([FRESH, elem_of(self.ev_quiet(itc.args[0]))] if itc.args else [])
+            if len(parts) == len(st.target.elts) and parts:
+                el = AV(el.tags, el.kind, el.g, el.r, el.elems, el.fields, el.cls, fn=el.fn)
+                el.pos = parts
         before = dict(self.env)
         self.in_loop += 1
         for _ in range(2):
@@ -1128,6 +1137,16 @@ class FuncAnalysis:
                 saved_env, self.env = self.env, {}
                 try:
                     self.an.module_const_fn[key] = self.ev_quiet(mc).fn
+                    # ... and the instances of helper classes with `__call__` it holds (`_COPIES = (_Copy("c0"), _Copy("c1"))`): built
+                    # from constants at import time, they hold no circuit state of any caller
+                    elts = mc.elts if isinstance(mc, (ast.Tuple, ast.List, ast.Set)) else mc.values if isinstance(mc, ast.Dict) else [mc]
+                    for i_, e_ in enumerate(elts):
+                        if not isinstance(e_, ast.Call):
+                            continue
+                        v_ = self.ev_quiet(e_)
+                        if v_.kind == "record" and v_.cls is not None and len(v_.cls) == 2 and v_.fields is not None and self.find_method(v_.cls[0], v_.cls[1], "__call__") is not None and not flatten_record(v_).any_tags():
+                            self.an.hinsts[(key, i_)] = v_
+                            self.an.module_const_fn[key] = frozenset(self.an.module_const_fn[key]) | {("hinst", key, i_)}
                 except Exception:
                     self.an.module_const_fn[key] = frozenset()
                 finally:
@@ -1530,6 +1549,9 @@ class FuncAnalysis:
                     av = self.call_record_method(n, argav[0], d[2], argav[1:], kwav)
                 else:
                     av = self.call_method(n, argav[0], d[2], argav[1:], kwav)
+            elif d[0] == "hinst":
+                rec_ = self.an.hinsts[(d[1], d[2])]
+                av = self.call_record_method(n, AV((), "record", fields=dict(rec_.fields), cls=rec_.cls, fn=rec_.fn), "__call__", argav, kwav)
             elif d[0] == "mcall" and argav:
                 names_, bound_, bkw_ = self.an.mcalls[d[1]]
                 av = None
